@@ -58,6 +58,8 @@ func parseMarkdown(text string) []Block {
 	for i := 0; i < len(lines); i++ {
 		ln := lines[i]
 		switch {
+		case ln == "  ":
+			res = append(res, Block{Kind: 'L'}) // Markdown.LF(): a blank line for CommonMark
 		case strings.TrimSpace(ln) == "":
 		case ln == "---":
 			res = append(res, Block{Kind: 'R'})
@@ -103,6 +105,8 @@ func dumpBlocks(bs []Block) string {
 			fmt.Fprintf(w, "B %s\n", hx(b.Text))
 		case 'R':
 			fmt.Fprintf(w, "R\n")
+		case 'L':
+			fmt.Fprintf(w, "L\n")
 		case 'T':
 			fmt.Fprintf(w, "T %d", len(b.Header))
 			for _, c := range b.Header {
